@@ -776,11 +776,8 @@ Proof.
   destruct (bin_vectors_spec T (floored T xs) Hs) as (-> & -> & ->).
   repeat split; apply map_ext_in; intros t Ht; apply (spec_floor_invariant T xs t Hs Hne Hge Ht).
 Qed.
-(* PARTIAL: binned AUPRC of the scores = binned AUPRC of the floored scores (which all sit ON thresholds).
-   Missing for the full statement: on floored scores the riemann sum over threshold indices equals
-   [auprc_exact] (thresholds with an empty bucket, and all but the last copy of a duplicated threshold,
-   contribute a zero recall increment).  That step is tied on every run: exhaustively for <= 4 samples and
-   on random inputs against both the Coq [auprc_exact] and the real exact binary_auprc. *)
+(* binned AUPRC of the scores = binned AUPRC of the floored scores (which all sit ON thresholds); the full
+   statement (= auprc_exact of the floored scores) is binned_auprc_floor_thm in Proofs/BinnedFloorP.v *)
 Theorem binned_auprc_floor_invariant T xs : asc T -> T <> [] -> (forall x, In x xs -> hd 0 T <= fst x) ->
   auprc_curve (map zq (bin_tp T xs)) (map zq (bin_fp T xs)) (map zq (bin_fn T xs))
   = auprc_curve (map zq (bin_tp T (floored T xs))) (map zq (bin_fp T (floored T xs))) (map zq (bin_fn T (floored T xs))).
